@@ -117,17 +117,48 @@ func routingScenario(s *Sim, params map[string]string) {
 	}
 	client := &kafka.Client{Addr: kafka.TCP(boot...), Transport: tr, Timeout: 5 * time.Second}
 
-	restarts := false // some broker has been restarted in this run
+	restarts := false  // some broker has been restarted in this run
+	elections := false // some partition has been without a leader in this run
 	// metadata snapshots delivered to the client (from the journal, at the end)
 	var moves []time.Duration
 	nmoves := t.Range("cfg", 0, 5)
 	endAt := time.Duration(t.Range("cfg", 2, 12)) * time.Second
 	for i := 0; i < nmoves; i++ {
 		at := time.Duration(t.Range("fault", 100, int(endAt/time.Millisecond))) * time.Millisecond
-		kind := t.Intn("fault", 6)
+		kind := t.Intn("fault", 7)
 		s.After(at, "cluster-change", func() {
 			moves = append(moves, s.Now())
 			switch kind {
+			case 6:
+				// a leader election in progress: for a while the partition has no
+				// leader (metadata: leader -1, LEADER_NOT_AVAILABLE, the in-sync
+				// replicas still listed, in no particular order); nothing
+				// designates a broker for it until a leader is elected
+				tn := topics[t.Intn("fault", len(topics))]
+				ps := cl.Topics[tn].Parts
+				p := ps[t.Intn("fault", len(ps))]
+				if p.Leader < 0 {
+					break
+				}
+				if len(p.ISR) > 1 && t.Intn("fault", 2) == 0 {
+					p.ISR = append(append([]int32(nil), p.ISR[1:]...), p.ISR[0])
+				}
+				cl.DeposeLeader(p)
+				elections = true
+				s.Count("fault:leader-election")
+				dur := time.Duration(t.Range("fault", 50, 3000)) * time.Millisecond
+				s.After(dur, "leader-elected", func() {
+					to := int32(1 + t.Intn("fault", nb))
+					if !cl.Broker(to).Up {
+						for _, b := range cl.Brokers {
+							if b.Up {
+								to = b.ID
+							}
+						}
+					}
+					p.Err = 0
+					cl.MoveLeader(p, to)
+				})
 			case 4, 5:
 				// a broker is restarted in place (same id and address) and comes
 				// back speaking a different set of versions: a rolling upgrade
@@ -250,7 +281,8 @@ func routingScenario(s *Sim, params map[string]string) {
 								// (while a broker is being restarted it is not in the broker
 								// list of the metadata response: the library then has no
 								// broker to report for its partitions)
-								if (pp.Leader.ID < 1 || pp.Leader.ID > nb) && !restarts {
+								// (nor while the partition is electing a leader: leader -1)
+								if (pp.Leader.ID < 1 || pp.Leader.ID > nb) && !restarts && !elections {
 									s.Fail("C12", "R4-metadata-filter", "Client.Metadata(%s) reports leader %d for partition %d", tn, pp.Leader.ID, pp.ID)
 								}
 							}
